@@ -1,14 +1,15 @@
 SPECIFICATION MCSpec
 CONSTANTS Proc <- MCProc
+          WakeOnPut = TRUE
           NP = 2
           NE = 2
           NC = 2
-          NOps = 2
+          NOps = 1
           NAdmin = 0
           CapSet = {0, 1, 2}
           TSet = {2}
           LaneSet = {1}
-          MaxClock = 3
+          MaxClock = 0
           GetKinds = {"Get", "GetNoWait"}
 INVARIANTS TypeOK Fifo Conservation RefusalInert PerProducerOrder WaitingImpliesEmpty
 PROPERTIES AllStepProps
